@@ -75,6 +75,7 @@ func (t *TypeExpr) String() string {
 
 // Contract of one function / interface method.
 type Contract struct {
+	SF        *SpecFile
 	Target    string // as written: GetType, (*Server).List, pkg/path.Func
 	Pkg       string // package path this contract file belongs to ("" for external)
 	Params    []string
@@ -114,6 +115,7 @@ type LoopSpec struct {
 }
 
 type GhostFunc struct {
+	SF     *SpecFile
 	Pure   bool
 	Name   string
 	Params []GhostParam
